@@ -150,6 +150,68 @@ fn clause_of(m: &str) -> String {
     }
 }
 
+fn strip_starts(alpha: &[u8]) -> Vec<(StripBytes, vmodel::strip::StripModel)> {
+    let sys_cls = StripBytesSys { tokens: alpha.iter().map(|&b| vec![b]).collect(), label: "StripBytes::strip_next/class-bytes".into() };
+    bfs::reachable_states(&sys_cls, &Limits::depth(64)).0
+}
+
+/// WinconBytes after each class byte string of <= 2 (parser states incl. partial characters)
+fn wincon_starts(alpha: &[u8]) -> Vec<WinconBytes> {
+    let mut v = vec![WinconBytes::new()];
+    for c in strings_upto(alpha.len(), 2).filter(|c| !c.is_empty()) {
+        let mut w = WinconBytes::new();
+        let bytes: Vec<u8> = c.iter().map(|&i| alpha[i]).collect();
+        let _ = w.extract_next(&bytes).count();
+        if !v.contains(&w) {
+            v.push(w);
+        }
+    }
+    v
+}
+
+/// follow-up chunks that tell the adapter states apart: text, a final byte, continuation bytes, terminators
+const PROBES: [&[u8]; 8] = [b"a", b"mx", b"\xa9x", b"\x9c\x85x", b"\x1b\\x", b"\x07x", b";5;9mx", b"\x80\x80x"];
+
+fn pair_strip(st: &StripBytes, p: &[u8]) -> Result<(), String> {
+    let mut one = st.clone();
+    let whole: Vec<u8> = one.strip_next(p).collect::<Vec<_>>().concat();
+    let mut two = st.clone();
+    let mut split: Vec<u8> = two.strip_next(&p[..1]).collect::<Vec<_>>().concat();
+    split.extend(two.strip_next(&p[1..]).collect::<Vec<_>>().concat());
+    if whole != split {
+        return Err(format!("from {:?}: the chunk {} gives {} (end {:?}), byte by byte {} (end {:?})", st, show(p), show(&whole), one, show(&split), two));
+    }
+    // the two must also have the same future (observed through probes, not through the private fields)
+    for probe in PROBES {
+        let a: Vec<u8> = one.clone().strip_next(probe).collect::<Vec<_>>().concat();
+        let b: Vec<u8> = two.clone().strip_next(probe).collect::<Vec<_>>().concat();
+        if a != b {
+            return Err(format!("from {:?}: after the chunk {} the next chunk {} gives {}, after the same bytes one by one {}", st, show(p), show(probe), show(&a), show(&b)));
+        }
+    }
+    Ok(())
+}
+
+fn pair_wincon(st: &WinconBytes, p: &[u8]) -> Result<(), String> {
+    let mut one = st.clone();
+    let whole = merge_real(one.extract_next(p).collect());
+    let mut two = st.clone();
+    let mut runs: Vec<_> = two.extract_next(&p[..1]).collect();
+    runs.extend(two.extract_next(&p[1..]));
+    let split = merge_real(runs);
+    if whole != split {
+        return Err(format!("from {:?}: the chunk {} gives {:?}, byte by byte {:?}", st, show(p), whole, split));
+    }
+    for probe in PROBES {
+        let a = merge_real(one.clone().extract_next(probe).collect());
+        let b = merge_real(two.clone().extract_next(probe).collect());
+        if a != b {
+            return Err(format!("from {:?}: after the chunk {} the next chunk {} gives {:?}, after the same bytes one by one {:?}", st, show(p), show(probe), a, b));
+        }
+    }
+    Ok(())
+}
+
 fn main_check(ctx: &Ctx) -> Outcome {
     let mut out = Outcome::default();
     let quick = ctx.quick();
@@ -339,6 +401,44 @@ fn main_check(ctx: &Ctx) -> Outcome {
     v.sort_by_key(|f| (f.case[0].len(), f.key()));
     out.findings.extend(v);
     out.push_part(json!({"system":"all partitions vs one-shot (StripBytes, StrippedBytes::extend, StripStream, WinconBytes, StripStr)","inputs":inputs.len(),"max_tokens":l,"focus_alphabet":focus.len()}));
+
+    // (d) every 2-byte chunk over all 256 byte values, from every class-reachable adapter state: as one chunk and as
+    //     two chunks (output and end state must agree) - for StripBytes and WinconBytes
+    {
+        let starts = strip_starts(&alpha);
+        let wstarts = wincon_starts(&alpha);
+        let pairs: Vec<[u8; 2]> = (0..=255u8).flat_map(|a| (0..=255u8).map(move |b| [a, b])).collect();
+        let bad = std::sync::Mutex::new(Vec::<Finding>::new());
+        pairs.par_iter().for_each(|p| {
+            for (si, st) in starts.iter().enumerate() {
+                evals.fetch_add(1, Ordering::Relaxed);
+                let r = guard(|| pair_strip(&st.0, &p[..]))
+                .and_then(|r| r);
+                if let Err(m) = r {
+                    let mut v = bad.lock().unwrap();
+                    if v.len() < 40 {
+                        v.push(Finding { system: "StripBytes::strip_next/all 2-byte chunks".into(), clause: "chunking-differs".into(), case: vec![format!("cls{si}"), hex(&p[..])], message: m, replay: json!({"kind":"pair","api":"strip","start":si,"chunk":hex(&p[..])}) });
+                    }
+                }
+            }
+            for (si, st) in wstarts.iter().enumerate() {
+                evals.fetch_add(1, Ordering::Relaxed);
+                let r = guard(|| pair_wincon(st, &p[..]))
+                .and_then(|r| r);
+                if let Err(m) = r {
+                    let mut v = bad.lock().unwrap();
+                    if v.len() < 40 {
+                        v.push(Finding { system: "WinconBytes::extract_next/all 2-byte chunks".into(), clause: "chunking-differs".into(), case: vec![format!("w{si}"), hex(&p[..])], message: m, replay: json!({"kind":"pair","api":"wincon","start":si,"chunk":hex(&p[..])}) });
+                    }
+                }
+            }
+        });
+        let mut v = bad.into_inner().unwrap();
+        v.sort_by_key(|f| f.key());
+        v.truncate(10);
+        out.findings.extend(v);
+        out.push_part(json!({"system":"every 2-byte chunk over 256 byte values: one chunk vs two (StripBytes from every class-reachable state, WinconBytes from every state after <= 2 class bytes)","pairs":pairs.len(),"strip_start_states":starts.len(),"wincon_start_states":wstarts.len()}));
+    }
     out.set("evaluations", json!(evals.load(Ordering::Relaxed)));
     out.set("distinct_nontrivial", json!(distinct.lock().unwrap().len()));
     out.set("rule", json!("evaluations = (input, partition) pairs of part (c); distinct_nontrivial = distinct one-shot outputs among the inputs"));
@@ -408,6 +508,16 @@ fn replay(v: &serde_json::Value) -> Result<(), String> {
                 }
             }
             Ok(())
+        }
+        "pair" => {
+            let (alpha, _) = class_alphabet();
+            let p = unhex(v["chunk"].as_str().unwrap_or(""));
+            let i = v["start"].as_u64().unwrap_or(0) as usize;
+            if v["api"] == "wincon" {
+                pair_wincon(wincon_starts(&alpha).get(i).ok_or("start state no longer exists")?, &p)
+            } else {
+                pair_strip(&strip_starts(&alpha).get(i).ok_or("start state no longer exists")?.0, &p)
+            }
         }
         "lock" => match vchecks::stdio_sys::lock_chunking_violations().1.first() {
             Some((c, m)) => Err(format!("{c}: {m}")),
